@@ -186,20 +186,21 @@ class GridSearch(BaseEstimator, MetaEstimatorMixin):
                 y_reduction = self.constraints._y_as_series
 
             y_reduction_unique = np.unique(y_reduction)
-            sample_weight_name = self.sample_weight_name
+            fit_params = {self.sample_weight_name: weights}
             if len(y_reduction_unique) == 1:
                 logger.debug("y_reduction had single value. Using DummyClassifier")
                 current_estimator = DummyClassifier(
                     strategy="constant", constant=y_reduction_unique
                 )
-                # the dummy takes its weights under scikit-learn's name
-                sample_weight_name = "sample_weight"
+                # the constant prediction does not depend on the weights, which are all
+                # zero when every signed weight cancels
+                fit_params = {}
             else:
                 logger.debug("Using underlying estimator")
                 current_estimator = copy.deepcopy(self.estimator)
 
             oracle_call_start_time = time()
-            current_estimator.fit(X, y_reduction, **{sample_weight_name: weights})
+            current_estimator.fit(X, y_reduction, **fit_params)
             oracle_call_execution_time = time() - oracle_call_start_time
             logger.debug("Call to estimator complete")
 
